@@ -12,6 +12,8 @@ Z3_TIMEOUT_MS = int(os.environ.get("PYVC_Z3_MS", "10000"))
 CVC5_TIMEOUT_MS = int(os.environ.get("PYVC_CVC5_MS", "20000"))
 CVC5_BIN = "/usr/bin/cvc5"
 
+DEADLINE = [None]  # wall-clock deadline of the current unit (set by the harness); past it every query is 'unknown'
+
 STATS = {"z3_queries": 0, "z3_time": 0.0, "cvc5_queries": 0, "cvc5_time": 0.0}
 
 
@@ -24,6 +26,8 @@ def smt2_of(assertions):
 
 def cvc5_check(assertions, timeout_ms=None):
     """returns 'sat' | 'unsat' | 'unknown'"""
+    if DEADLINE[0] is not None and time.time() > DEADLINE[0]:
+        return "unknown"
     text = smt2_of(assertions)
     # z3 emits (set-info :status ...) and (check-sat); cvc5 wants a logic
     text = "(set-logic ALL)\n" + text
@@ -71,7 +75,11 @@ class PathSolver:
     def check(self, *extra):
         """satisfiability of pc ∧ extra: 'sat' | 'unsat' | 'unknown'"""
         t0 = time.time()
+        if DEADLINE[0] is not None and t0 > DEADLINE[0]:
+            return "unknown"
         STATS["z3_queries"] += 1
+        if DEADLINE[0] is not None:
+            self.s.set("timeout", int(max(100, min(Z3_TIMEOUT_MS, (DEADLINE[0] - t0) * 1000))))
         r = self.s.check(*extra)
         STATS["z3_time"] += time.time() - t0
         if r == z3.sat:
